@@ -114,7 +114,7 @@ func busy(n int) {
 	sink += x
 }
 
-const hangTimeout = 20 * time.Second
+const hangTimeout = 10 * time.Second
 
 func runCase(in input) mirror {
 	old := runtime.GOMAXPROCS(in.Procs)
@@ -140,6 +140,7 @@ func runCase(in input) mirror {
 			if in.StopDelay > 0 {
 				time.Sleep(time.Duration(in.StopDelay) * time.Microsecond)
 			}
+			rec.putSeen(e) // what the sticky error is just before Stop: Stop must not replace it
 			rec.put(evJ{T: "stopcall"})
 			e.Stop()
 			rec.put(evJ{T: "stopret"})
@@ -510,7 +511,15 @@ func genInputs(r *rand.Rand) []input {
 		stopAfter = r.Intn(n + 1)
 		stopDelay = []int{0, 0, 50, 200, 500}[r.Intn(5)]
 		if r.Intn(2) == 0 {
-			ts[r.Intn(n)].Fail = true
+			f := r.Intn(n)
+			if r.Intn(2) == 0 {
+				// an early, short failing task and a late Stop: the task's error is the first one
+				f = r.Intn(1 + n/4)
+				ts[f].Sleep, ts[f].Yield, ts[f].Spin = 0, 0, 0
+				stopAfter = n
+				stopDelay = 300
+			}
+			ts[f].Fail = true
 			kind += "+fail"
 		}
 		if r.Intn(2) == 0 {
@@ -577,9 +586,17 @@ func TestDriver(t *testing.T) {
 		return
 	}
 	r := env.Rand()
-	for w.Count() < env.N {
+	hangs := 0
+	for w.Count() < env.N && hangs < 2 {
 		for _, in := range genInputs(r) {
-			_ = w.Put(toCase(runCase(in), in.Gen))
+			m := runCase(in)
+			if m.Hang {
+				hangs++ // a hung executor leaks its goroutines: report it and stop generating
+			}
+			_ = w.Put(toCase(m, in.Gen))
+			if hangs >= 2 {
+				break
+			}
 		}
 	}
 }
